@@ -20,11 +20,24 @@
   `c05_budget_spent`: ONE search — one `process_variable` call: the locals of one frame, one watch / log field value, the
   capture value.  A snapshot is a sequence of searches sharing the cache; across searches depths restart at 0.
   The bounds (`c05_count`, `c05_string`, `c05_collection`, `c05_depth`) are per snapshot.
+
+  THE TIME BUDGET (`c05_time_*`, section at the end): `FrameCollector.__time_exceeded` and the guard of `_process_frame` are
+  regenerated from the source (`Extracted/CollectorTime.lean`); the clock is a script (`Clock.read k` = what the k-th
+  `time_ns()` call of the collector returns), ANY function Nat → Int (not monotone, may lie before `ts`), any `ts`, any
+  budget incl. 0 and negative.  The statement does not say what the time budget is to do; what the code does is stated
+  exactly (`c05_time_exact`): the clock is looked at once per selected frame on REACHING it, a frame reached within the
+  budget is collected whole (the clock is not looked at again until the next frame — `c05_time_reads`, and the number of
+  clock reads of the real collector is compared on every case), a frame reached after it carries no variables, and so do
+  all later ones (`c05_time_sticky`); such frames are still listed (`C02.c02_frames` holds for whatever the collector
+  produced).  NOT covered: time spent inside one frame's collection is never checked by the code — one huge frame can
+  overrun the budget without bound; watches / log fields / capture values are collected whatever the clock says.
 -/
 import DeepModel.Proofs.CollectorSnap
 import DeepModel.Proofs.FramesCollect
 import DeepModel.Proofs.FramesEntries
 import DeepModel.Proofs.CollectorExamples
+import DeepModel.Proofs.CollectorTime
+import DeepModel.Proofs.Frames
 
 namespace C05
 open Heap Collector Extracted.Collector
@@ -200,6 +213,118 @@ theorem c05_terminates (H : Heap) (L : Limits) (s : BState) :
 /-- and a finished search does not move any more -/
 theorem c05_final_stable (H : Heap) (L : Limits) (s : BState) (k : Nat) :
     run H L k (runToEnd H L s) = runToEnd H L s := run_final k (runToEnd_final H L s)
+
+/-! ### the processing-time budget (`MAX_TP_PROCESS_TIME`) -/
+
+section time
+open CollectorTime
+
+/-- **time budget, exactly** — for every scripted clock (any function, not assumed monotone), time stamp, budget, and
+    frame-type selection of the stack: frame `i` gets its variables collected iff it is selected and neither the reading
+    taken on reaching it nor any earlier reading was more than `maxMs` ms after the trigger's time stamp.  Refinement of the
+    sticky-flag loop (regenerated `timeExceeded` / `frameGuard`) to the stateless `Spec.collects`. -/
+theorem c05_time_exact (ck : Clock) (sels : List Bool) (i : Nat) (hi : i < sels.length) :
+    (decisions ck sels)[i]? = some (Spec.collects ck sels i) := by
+  unfold decisions
+  rw [initial_flag]
+  have := decisionsFrom_spec ck sels 0 i hi
+  simpa [Spec.collects] using this
+
+theorem selectedBefore_mono (sels : List Bool) {i j : Nat} (h : i ≤ j) :
+    Spec.selectedBefore sels i ≤ Spec.selectedBefore sels j := by
+  unfold Spec.selectedBefore
+  have : (sels.take i) = ((sels.take j).take i) := by rw [List.take_take, Nat.min_eq_left h]
+  rw [this]
+  exact (List.take_sublist _ _).count_le _
+
+/-- **sticky** — once a selected frame was reached after the budget was spent (it carries no variables), no later frame
+    carries variables either, whatever the clock says afterwards (it is not even looked at). -/
+theorem c05_time_sticky (ck : Clock) (sels : List Bool) (i j : Nat) (hij : i < j) (hj : j < sels.length)
+    (hs : sels[i]? = some true) (hd : (decisions ck sels)[i]? = some false) :
+    (decisions ck sels)[j]? = some false := by
+  have hi : i < sels.length := by omega
+  rw [c05_time_exact ck sels i hi] at hd
+  rw [c05_time_exact ck sels j hj]
+  simp only [Option.some.injEq] at hd ⊢
+  have hsel : sels.getD i false = true := by
+    rw [List.getD_eq_getElem?_getD, hs]; rfl
+  simp only [Spec.collects, hsel, Bool.true_and] at hd
+  rw [List.all_eq_false] at hd
+  obtain ⟨m, hm, hover⟩ := hd
+  simp only [Spec.collects, Bool.and_eq_false_iff]
+  right
+  rw [List.all_eq_false]
+  refine ⟨m, ?_, hover⟩
+  have := selectedBefore_mono sels (Nat.le_of_lt hij)
+  simp only [List.mem_range] at hm ⊢
+  omega
+
+/-- **within the budget nothing changes** — if no reading is over the budget, exactly the frames the frame type selects are
+    collected. -/
+theorem c05_time_within_budget (ck : Clock) (sels : List Bool) (h : ∀ k, Spec.over ck k = false) :
+    decisions ck sels = sels := by
+  apply List.ext_getElem?
+  intro i
+  by_cases hi : i < sels.length
+  · rw [c05_time_exact ck sels i hi]
+    have : (List.range (Spec.selectedBefore sels i + 1)).all (fun m => !Spec.over ck m) = true := by
+      rw [List.all_eq_true]; intro m _; simp [h m]
+    simp [Spec.collects, this, List.getD_eq_getElem?_getD, List.getElem?_eq_getElem hi]
+  · have h1 : sels.length ≤ i := by omega
+    have h2 : (decisions ck sels).length ≤ i := by
+      unfold decisions; rw [decisionsFrom_length]; exact h1
+    rw [List.getElem?_eq_none h1, List.getElem?_eq_none h2]
+
+/-- **one look at the clock per frame** — the collector reads the clock once for every frame it collects, plus at most once
+    more (the reading that found the budget spent), and never more often than there are selected frames: nothing is read
+    while a frame is being collected, so no frame is cut half-way by the time budget. -/
+theorem c05_time_reads (ck : Clock) (sels : List Bool) :
+    (decisions ck sels).count true ≤ readsUsed ck sels ∧
+    readsUsed ck sels ≤ (decisions ck sels).count true + 1 ∧
+    readsUsed ck sels ≤ sels.count true := by
+  unfold decisions readsUsed
+  have h1 := decisionsFrom_reads_collected ck sels TState.init
+  have h2 := decisionsFrom_reads_le ck sels TState.init
+  rw [initial_flag] at h1 h2 ⊢
+  simp only [Nat.zero_add, Bool.false_eq_true, if_false, Nat.add_zero] at h1 h2
+  exact ⟨h1.1, h1.2, h2⟩
+
+/-- **frames reached after the budget carry no variables, the others are whole** — in the frame collection of an action
+    run against a scripted clock: one variable list per frame of the stack, and the list of a frame that `Spec.collects`
+    rejects is empty. -/
+theorem c05_time_frames (H : Heap) (L : Limits) (ck : Clock) (fs : List TFrame) (c : Cache) (t : List Entry)
+    (hok : (collectFrames H L (frameIns ck fs) c t).failed = none) :
+    (collectFrames H L (frameIns ck fs) c t).frames.length = fs.length ∧
+    ∀ i, i < fs.length → Spec.collects ck (fs.map (·.selected)) i = false →
+      (collectFrames H L (frameIns ck fs) c t).frames[i]? = some [] := by
+  have hlen : (frameIns ck fs).length = fs.length := by
+    simp [frameIns, decisions, decisionsFrom_length]
+  obtain ⟨h1, h2⟩ := Frames.collectFrames_shape H L (frameIns ck fs) c t hok
+  refine ⟨by rw [h1, hlen], ?_⟩
+  intro i hi hc
+  apply h2
+  have hd := c05_time_exact ck (fs.map (·.selected)) i (by simpa using hi)
+  have hdi : i < (decisions ck (fs.map (·.selected))).length := by
+    unfold decisions; rw [decisionsFrom_length]; simpa using hi
+  rw [List.getElem?_eq_getElem hdi, hc] at hd
+  simp only [frameIns, List.getElem?_zipWith, List.getElem?_eq_getElem hi, List.getElem?_eq_getElem hdi]
+  simp only [Option.some.injEq] at hd
+  simp [hd]
+
+/-- non-vacuity: frame type all_frame over 4 frames, budget 100 ms, readings 5 ms, 100 ms (still inside: the comparison is
+    strict), 100 ms + 1 ns (spent), then a clock that went BACK to 0: frames 0 and 1 collected, 2 and 3 not; 3 readings. -/
+example : let ck : Clock := ⟨1, 100, fun k => [5000001, 100000001, 100000002, 0].getD k 0⟩
+    (decisions ck [true, true, true, true], readsUsed ck [true, true, true, true]) =
+      ([true, true, false, false], 3) := by decide
+
+/-- single_frame (only frame 0 selected): one reading, the deeper frames never look at the clock -/
+example : let ck : Clock := ⟨1, 100, fun _ => 0⟩
+    (decisions ck [true, false, false], readsUsed ck [true, false, false]) = ([true, false, false], 1) := by decide
+
+/-- budget 0 and a clock that has not moved: not spent (strictly more than); moved by 1 ns: spent -/
+example : (decisions ⟨7, 0, fun _ => 7⟩ [true], decisions ⟨7, 0, fun _ => 8⟩ [true]) = ([true], [false]) := by decide
+
+end time
 
 /-! ### non-vacuity: the limits are really hit by concrete heaps
 
